@@ -314,6 +314,39 @@ theorem reject_pure (st : Style) (cols lines : Nat) (s : List Char) (e : Err)
       | error e' => simp
       | ok r => simp [hc] at h
 
+/-- SUBCLASS INDEPENDENCE: a class uses the grammar of the nearest style class in its MRO — whatever
+    number of application-defined subclasses (which define nothing) sit in front of it. -/
+theorem dispatch_subclass (st : Style) (apps : List KName) (h : ∀ k ∈ apps, ∃ n, k = .app n) :
+    dispatch (apps ++ styleMro st) = some st := by
+  induction apps with
+  | nil => cases st <;> decide
+  | cons k ks ih =>
+    obtain ⟨n, rfl⟩ := h k (by simp)
+    have ih := ih fun k hk => h k (by simp [hk])
+    have h1 : ∀ l, (KName.app n :: l).find? KName.definesCheck = l.find? KName.definesCheck := fun l => by
+      simp [List.find?, KName.definesCheck]
+    have h2 : ∀ l, (KName.app n :: l).find? KName.definesTables = l.find? KName.definesTables := fun l => by
+      simp [List.find?, KName.definesTables]
+    have h3 : ∀ k' l, k' ≠ KName.app n → superOf KName.definesCheck k' (KName.app n :: l) =
+        superOf KName.definesCheck k' l := fun k' l hk => by
+      have : (KName.app n != k') = true := by simp [bne_iff_ne, Ne.symm hk]
+      simp [superOf, List.dropWhile, this]
+    unfold dispatch at ih ⊢
+    rw [List.cons_append, h1, h2, h3 .kitty _ (by simp), h3 .iterm2 _ (by simp)]
+    exact ih
+
+/-- … hence every entry point (`_check_format_spec`, `format`/f-string/`str.format`, `ImageIterator`,
+    `UrwidImage`), on an instance of a style class or of any subclass of it, accepts exactly the sentences
+    of that style's documented grammar, and with the documented denotation. -/
+theorem entry_accepts_iff_grammar (e : Entry) (st : Style) (apps : List KName)
+    (h : ∀ k ∈ apps, ∃ n, k = .app n) (cols lines : Nat) (s : List Char) :
+    entryCheck e (apps ++ styleMro st) cols lines s = checkFormatSpec st cols lines s ∧
+    ((∃ r, entryCheck e (apps ++ styleMro st) cols lines s = .ok r) ↔ Grammar st s) := by
+  have : entryCheck e (apps ++ styleMro st) cols lines s = checkFormatSpec st cols lines s := by
+    simp [entryCheck, entryClass, checkFormatSpecK, dispatch_subclass st apps h]
+  refine ⟨this, ?_⟩
+  rw [this, accepts_term_independent, accepts_iff_grammar]
+
 /-- NO SIDE EFFECT ON REJECTION, over the entry point with the instance state explicit: when
     `image.__format__(spec)` raises, the instance state (size setting — a dynamic `Size` stays that `Size` —
     and frame position) is what it was, and nothing but the terminal-size read happened: the renderer was not
@@ -435,6 +468,9 @@ example : formatEntry .kitty 80 30 (fun _ => (56, 28)) ⟨.dyn 0, 1⟩ "1.".toLi
 example : (formatEntry .kitty 80 30 (fun _ => (56, 28)) ⟨.dyn 0, 1⟩ "+z1L".toList).2.2 = .error .styleError := by decide
 example : (formatEntry .block 80 30 (fun _ => (56, 28)) ⟨.dyn 3, 0⟩ "<.^".toList).2.1 =
     [.termSize, .enter, .setSize 56 28, .render 56 28, .restore 3] := by decide
+-- dispatch_subclass: a two-level application subclass of ITerm2Image; and an MRO whose `super()` loops is refused
+example : dispatch ([.app 1, .app 0] ++ styleMro .iterm2) = some .iterm2 := by decide
+example : entryCheck .iter ([.app 0] ++ styleMro .kitty) 80 30 "5.5+c9".toList = checkFormatSpec .kitty 80 30 "5.5+c9".toList := by decide
 -- format_eq_draw_params: a sentence with width ≤ terminal width
 example : (⟨some '<', ['7'], none, some .termbg, none⟩ : Sentence).wf .block = true ∧
     natOfDigits ['7'] ≤ 80 := by decide
